@@ -9,7 +9,7 @@ ADDR = {"i1": "A:1", "i2": "A:2", "i3": "B:1", "i4": "B:2", "i5": "C:1", "o1": "
 LISTEN = {"i1": "A:9", "i2": "A:8", "i3": "B:9", "i4": "B:9", "i5": "C:9", "o1": "D:9", "o2": "E:9", "o3": "D:9", "o4": "A:9"}
 KID = {"i1": "k1", "i2": "k2", "i3": "k3", "i4": "k3", "i5": "k1", "o1": "k4", "o2": "k5", "o3": "k4", "o4": "k1"}
 UNIVERSE = {"ConnsQ": ["i1", "i2", "i3", "o1", "o2"], "ConnsQ2": ["i1", "i5", "o1", "o3", "o4"],
-            "ConnsT": ["i1", "i2", "i3", "i4", "o1", "o2", "o3"], "ConnsT2": ["i1", "i2", "i4", "i5", "o1", "o3", "o4"]}
+            "ConnsT": ["i1", "i2", "i3", "i4", "o1", "o2", "o3"], "ConnsT2": ["i1", "i2", "i5", "o1", "o3", "o4"]}
 
 REAL_IP = {"A": "10.0.0.1", "B": "10.0.0.2", "C": "10.0.0.3", "D": "10.0.0.4", "E": "10.0.0.5"}
 REAL_PORT = {"1": "30001", "2": "30002", "8": "20339", "9": "20338"}
